@@ -8,6 +8,7 @@ export GOFLAGS=-mod=mod GOPROXY=off GOSUMDB=off GOTOOLCHAIN=local
 seeds=${@:-$(ls /verif/seeded | grep -E '^C[0-9]+_[a-z]$')}
 for s in $seeds; do
   d=/verif/seeded/$s
+  if python3 -c "import json,sys;sys.exit(0 if json.load(open('$d/meta.json')).get('neutralised') else 1)"; then continue; fi
   prop=$(python3 -c "import json;print(json.load(open('$d/meta.json'))['property'])")
   only=$(grep -h "seed=\(seed_\)\?$s " /verif/out/seed_round*.txt 2>/dev/null | grep -o 'caught_by=.*' | sed 's/caught_by=//' | tr ',' '\n' | sed 's/:.*//' | grep . | sort -u | tr '\n' ',' | sed 's/,$//')
   if ! git -C /repo apply --check $d/patch.diff 2>/dev/null; then
